@@ -189,6 +189,10 @@ func (a *archetype) GetTables(relations []relationID) []tableID {
 		return a.tables.tables
 	}
 	index := a.componentsMap[relations[0].component.id]
+	if index < 0 {
+		// The archetype does not have the relation component: none of its tables can match.
+		return nil
+	}
 	if tables, ok := a.relationTables[index][relations[0].target.id]; ok {
 		return tables.tables
 	}
